@@ -22,3 +22,8 @@ def bound_keyword_named_like_star_parameter(rec):
     if rp.get('status') == 'replay-skipped':
         return True
     return any(k in (rp.get('star_names') or []) for k in (rp.get('keywords') or {}))
+
+
+def cyclic_forwarding_graph(rec):
+    rp = rec.get('replay', {})
+    return 'recursion' in str(rp.get('op', '')) or rp.get('status') == 'replay-skipped'
